@@ -203,6 +203,10 @@ func sh(b []byte) string {
 // FFS2->FFS3 switch, and pad files (layout artefacts that legitimately move when recompression
 // changes a size).
 func deep(f uefi.Firmware, sb *strings.Builder) {
+	if r, ok := deepSubst[f]; ok {
+		sb.WriteString(r)
+		return
+	}
 	switch n := f.(type) {
 	case *uefi.BIOSRegion:
 		sb.WriteString("R(")
@@ -217,16 +221,7 @@ func deep(f uefi.Firmware, sb *strings.Builder) {
 			fmt.Fprintf(sb, "V0:%s;", sh(n.Buf()))
 			return
 		}
-		g := n.FileSystemGUID
-		if g == *uefi.FFS3 {
-			g = *uefi.FFS2
-		}
-		bs := uint32(0)
-		if len(n.Blocks) > 0 {
-			bs = n.Blocks[0].Size
-		}
-		fmt.Fprintf(sb, "V:%x:%x:%x:%x:%x:%x:%x:%x:%x(", n.Buf()[:16], g[:], n.Attributes, n.HeaderLen, n.Revision,
-			n.ExtHeaderOffset, n.DataOffset, bs, n.FVName[:])
+		sb.WriteString(volHead(n) + "(")
 		for _, x := range n.Files {
 			if x.Header.Type == uefi.FVFileTypePad {
 				continue
@@ -261,6 +256,30 @@ func deep(f uefi.Firmware, sb *strings.Builder) {
 	default:
 		fmt.Fprintf(sb, "?%T;", f)
 	}
+}
+
+// volHead: the fields of a volume header that the decompressed tree keeps.
+func volHead(n *uefi.FirmwareVolume) string {
+	g := n.FileSystemGUID
+	if g == *uefi.FFS3 {
+		g = *uefi.FFS2
+	}
+	bs := uint32(0)
+	if len(n.Blocks) > 0 {
+		bs = n.Blocks[0].Size
+	}
+	return fmt.Sprintf("V:%x:%x:%x:%x:%x:%x:%x:%x:%x", n.Buf()[:16], g[:], n.Attributes, n.HeaderLen, n.Revision,
+		n.ExtHeaderOffset, n.DataOffset, bs, n.FVName[:])
+}
+
+// deepSubst: nodes printed as the given text instead of their subtree (the edit and repack oracles
+// compare "everything but the edited volume" this way).
+var deepSubst map[uefi.Firmware]string
+
+func deepWith(f uefi.Firmware, subst map[uefi.Firmware]string) string {
+	deepSubst = subst
+	defer func() { deepSubst = nil }()
+	return deepOf(f)
 }
 
 func deepOf(f uefi.Firmware) string {
@@ -305,18 +324,28 @@ func pDeep(args []string) string {
 	if !setCfg(args[0]) {
 		return "skip"
 	}
-	return deepCheck(UnH(args[1]))
+	return deepCheck(UnH(args[1]), len(args) > 2 && args[2] == "wf")
 }
 
-func deepCheck(x []byte) string {
+// refusal judges an input that does not parse or does not save. wf: the image comes from the reference
+// serialiser, so Parse must accept it and the only legitimate refusal of Save is a fixed-size volume
+// that is full after recompression.
+func refusal(wf bool, what string, t uefi.Firmware, err error) string {
+	if !wf || (what == "save" && spaceRefusal(t, err)) {
+		return "skip"
+	}
+	return "FAIL well-formed-image-" + what + "-error " + err.Error()
+}
+
+func deepCheck(x []byte, wf bool) string {
 	t, err := parse(x)
 	if err != nil {
-		return "skip"
+		return refusal(wf, "parse", nil, err)
 	}
 	d0 := deepOf(t)
 	y, err := save(t)
 	if err != nil {
-		return "skip"
+		return refusal(wf, "save", t, err)
 	}
 	t2, err := parse(y)
 	if err != nil {
@@ -333,17 +362,27 @@ func pFixed(args []string) string {
 	if !setCfg(args[0]) {
 		return "skip"
 	}
-	return fixedCheck(UnH(args[1]))
+	return fixedCheck2(UnH(args[1]), len(args) > 2 && strings.HasPrefix(args[2], "wf"), len(args) > 2 && args[2] == "wf2")
 }
 
-func fixedCheck(x []byte) string {
+func fixedCheck(x []byte, wf bool) string { return fixedCheck2(x, wf, true) }
+
+func fixedCheck2(x []byte, wf, twice bool) string {
 	t, err := parse(x)
 	if err != nil {
-		return "skip"
+		return refusal(wf, "parse", nil, err)
 	}
+	allow := undecodedPayloads(t)
 	y, err := save(t)
 	if err != nil {
-		return "skip"
+		return refusal(wf, "save", t, err)
+	}
+	// Assemble run once more on the tree it has just assembled (what "repack ... save" and
+	// "save a ... save b" do) writes the same bytes
+	if twice {
+		if y2, err := save(t); err != nil || !bytes.Equal(y, y2) {
+			return fmt.Sprintf("FAIL assemble-twice-differs err=%v", err)
+		}
 	}
 	t2, err := parse(y)
 	if err != nil {
@@ -361,7 +400,7 @@ func fixedCheck(x []byte) string {
 		return fmt.Sprintf("FAIL second-save-differs at %x len %x vs %x", i, len(y), len(z))
 	}
 	// the saved image is consistent for a reader that shares no code with fiano's parser
-	if r := checkImage(y); r != "" {
+	if r := checkImageAllow(y, allow); r != "" {
 		return "FAIL independent-check " + r
 	}
 	return "ok"
@@ -370,9 +409,13 @@ func fixedCheck(x []byte) string {
 // ---------- nested edit ----------
 
 type loc struct {
-	file *uefi.File
-	fv   *uefi.FirmwareVolume
+	file   *uefi.File
+	fv     *uefi.FirmwareVolume
+	nested bool // fv sits inside a firmware-volume-image section
 }
+
+// nestedVols: the volumes reached through a section, filled by findFiles
+var nestedVols = map[*uefi.FirmwareVolume]bool{}
 
 func findFiles(f uefi.Firmware, parent *uefi.FirmwareVolume, g guid.GUID, out *[]loc) {
 	switch n := f.(type) {
@@ -381,12 +424,15 @@ func findFiles(f uefi.Firmware, parent *uefi.FirmwareVolume, g guid.GUID, out *[
 			findFiles(e.Value, nil, g, out)
 		}
 	case *uefi.FirmwareVolume:
+		if parent != nil {
+			nestedVols[n] = true
+		}
 		for _, x := range n.Files {
 			findFiles(x, n, g, out)
 		}
 	case *uefi.File:
 		if n.Header.GUID == g {
-			*out = append(*out, loc{n, parent})
+			*out = append(*out, loc{n, parent, nestedVols[parent]})
 		}
 		for _, s := range n.Sections {
 			findFiles(s, parent, g, out)
@@ -411,6 +457,7 @@ func nonPadGUIDs(fv *uefi.FirmwareVolume) []guid.GUID {
 // p_edit <cfg> <img> <guid16> <mode> [<newfile>]: an edit inside a nested volume through the CLI
 // visitors (mode r = "remove GUID", i = "insert file F after GUID"), then save and re-parse.
 func pEdit(args []string) string {
+	nestedVols = map[*uefi.FirmwareVolume]bool{}
 	if !setCfg(args[0]) {
 		return "skip"
 	}
@@ -421,12 +468,16 @@ func pEdit(args []string) string {
 	if err != nil {
 		return "skip"
 	}
+	allow := undecodedPayloads(t)
 	var ls []loc
 	findFiles(t, nil, g, &ls)
-	if len(ls) != 1 || ls[0].fv == nil || !ls[0].fv.Resizable {
+	if len(ls) != 1 || ls[0].fv == nil || !ls[0].nested {
 		return "skip" // the target must be one file of a nested volume
 	}
 	inner := ls[0].fv
+	if !inner.Resizable {
+		return "FAIL nested-volume-not-resizable"
+	}
 	before := nonPadGUIDs(inner)
 	oldLen := inner.Length
 	if len(inner.Blocks) == 0 || inner.Blocks[0].Size == 0 {
@@ -483,7 +534,7 @@ func pEdit(args []string) string {
 	y, err := save(t)
 	if err != nil {
 		// the only legitimate refusal: the enclosing fixed-size volume is full
-		if strings.Contains(err.Error(), "out of space") {
+		if spaceRefusal(t, err) {
 			return "skip"
 		}
 		return "FAIL save-after-edit " + err.Error()
@@ -565,7 +616,7 @@ func pEdit(args []string) string {
 		return "FAIL validate " + e.Error()
 	}
 	// ... and an independent reader of the bytes
-	if r := checkImage(y); r != "" {
+	if r := checkImageAllow(y, allow); r != "" {
 		return "FAIL independent-check " + r
 	}
 	return "ok"
@@ -590,7 +641,8 @@ func emitTables(emit Emit, tl []tline) {
 
 func gen(r *Rng, tier string, emit Emit) {
 	n := 40
-	if tier == "thorough" {
+	thorough := tier == "thorough"
+	if thorough {
 		n = 1200
 	}
 	haveXZ := false
@@ -598,7 +650,7 @@ func gen(r *Rng, tier string, emit Emit) {
 		haveXZ = true
 	}
 	// sizes around the 16 MiB limit of the short headers (images are built inside the worker)
-	for _, c := range [][2]string{{"f", "fffffe"}, {"f", "ffffff"}, {"f", "1000000"}, {"n", "1000010"}, {"ab", "1000010"}} {
+	for _, c := range [][2]string{{"f", "fffffe"}, {"f", "ffffff"}, {"f", "1000000"}, {"n", "1000010"}, {"ab", "1000010"}, {"au", "1000010"}} {
 		emit("P", "p_big", c[0], c[1])
 	}
 	// a compressed (ZLIB) section around 16 MiB of noise whose size 24 + encoded payload is just below,
@@ -613,6 +665,13 @@ func gen(r *Rng, tier string, emit Emit) {
 	}
 	if tier == "thorough" {
 		emit("P", "p_big", "l", "ffffff", N(r.U64()%1000+1)) // one LZMA case (tens of seconds)
+	}
+	// one fixed image for the repack oracle, so that every run has (a) a per-file compressed section with three
+	// children, (b) a section under the LZMAX86 GUID without the processing-required bit and (c) an LZMA section
+	// whose payload does not decode, all at the first level of the files of the repacked volume
+	if x, g, ok := repackImage(r.Fork(0x5EED)); ok {
+		emit("P", "p_deep", "x", H(x), "wf")
+		emit("P", "p_repack", "x", H(x), "f", H(g[:]))
 	}
 	for it := 0; it < n; it++ {
 		rr := r.Fork(uint64(it))
@@ -632,8 +691,9 @@ func gen(r *Rng, tier string, emit Emit) {
 				enc = altEnc
 			}
 			kinds := [][]int{{1}, {2}, {3}, {3}, {1, 2, 3}}[rr.Intn(5)]
-			o := uefigen.COpts{Depth: it % 4, Kinds: kinds, Enc: enc, DataOff: rr.Chance(1, 3), PlainNest: true, Opaque: true}
-			reg, targets, err := uefigen.GenCompRegion(rr.Fork(7), o)
+			o := uefigen.COpts{Depth: it % 4, Kinds: kinds, Enc: enc, DataOff: rr.Chance(1, 3), PlainNest: true, Opaque: true,
+				Corrupt: true, Siblings: true, LargeForm: true, HdrBytes: true}
+			reg, targets, all, err := uefigen.GenCompRegionAll(rr.Fork(7), o)
 			if err != nil {
 				continue
 			}
@@ -648,8 +708,13 @@ func gen(r *Rng, tier string, emit Emit) {
 				emit("C", "parse", H(x))
 				emit("C", saveOp, H(x))
 			}
-			emit("P", "p_deep", cfg, H(x))
-			emit("P", "p_fixed", cfg, H(x))
+			// "wf": the image comes from the reference serialiser, a refusal to parse or save it is a failure
+			emit("P", "p_deep", cfg, H(x), "wf")
+			if thorough || it%3 == 0 {
+				emit("P", "p_fixed", cfg, H(x), "wf2") // also: Assemble run twice on one tree writes the same bytes
+			} else {
+				emit("P", "p_fixed", cfg, H(x), "wf")
+			}
 			if y != nil && small && rr.Chance(1, 2) {
 				// the saved image as an input of its own: the model must agree on the fixed point
 				tl2, _ := tables(y)
@@ -657,21 +722,93 @@ func gen(r *Rng, tier string, emit Emit) {
 				emit("C", "parse", H(y))
 				emit("C", saveOp, H(y))
 			}
+			newFile := func(k int) string {
+				var ng [16]byte
+				copy(ng[:], rr.Bytes(16))
+				ng[8], ng[9] = 0xC7, byte(k)
+				return H(uefigen.NewFileBytes(rr, ng))
+			}
 			// edits inside nested volumes
 			for k := 0; k < 2 && len(targets) > 0; k++ {
 				tg := targets[rr.Intn(len(targets))]
 				if k == 0 {
 					emit("P", "p_edit", cfg, H(x), H(tg.GUID[:]), "r")
 				} else {
-					var ng [16]byte
-					copy(ng[:], rr.Bytes(16))
-					ng[8] = 0xC7
-					emit("P", "p_edit", cfg, H(x), H(tg.GUID[:]), "i", H(uefigen.NewFileBytes(rr, ng)))
+					emit("P", "p_edit", cfg, H(x), H(tg.GUID[:]), "i", newFile(0))
+				}
+			}
+			// edit sequences inside one nested volume, with saves in between (s: go on with the re-parsed
+			// tree, S: go on with the tree that was saved)
+			if len(targets) > 0 && ((thorough && (it/4)%3 != 0) || (!thorough && (it/4)%2 == 0)) { // depth is it%4: every depth on every other round
+				re := rr.Fork(11)
+				tg := H(targets[re.Intn(len(targets))].GUID[:])
+				f1, f2 := newFile(1), newFile(2)
+				g1, g2 := f1[:32], f2[:32]
+				var steps []string
+				shape := re.Intn(6)
+				if !thorough && shape == 5 {
+					shape = re.Intn(5) // the three-save sequence in the thorough tier only
+				}
+				switch shape {
+				case 0: // two insertions at the same place
+					steps = []string{"i" + tg + ":" + f1, "i" + tg + ":" + f2}
+				case 1: // the inserted file replaces its anchor
+					steps = []string{"i" + tg + ":" + f1, "r" + tg}
+				case 2: // grow, save, grow again from the saved state
+					steps = []string{"i" + tg + ":" + f1, "s", "i" + g1 + ":" + f2}
+				case 3: // the same on the tree that was saved
+					steps = []string{"i" + tg + ":" + f1, "S", "i" + g1 + ":" + f2}
+				case 4: // insert, save, take it out again
+					steps = []string{"i" + tg + ":" + f1, []string{"s", "S"}[re.Intn(2)], "r" + g1}
+				default: // three saves
+					steps = []string{"i" + tg + ":" + f1, "s", "i" + tg + ":" + f2, "S", "r" + g1}
+				}
+				_ = g2
+				emit("P", "p_edits", append([]string{cfg, H(x)}, steps...)...)
+			}
+			// repack: the volume that holds a file (any level), or the top-level volume by its name
+			if ((thorough && it%2 == 1) || (!thorough && it%3 == 1)) && len(all) > 0 {
+				re := rr.Fork(13)
+				var top *uefigen.Vol
+				for _, e := range reg.Elems {
+					if e.Vol != nil {
+						top = e.Vol
+					}
+				}
+				if top != nil && top.ExtHeader && re.Chance(2, 3) {
+					emit("P", "p_repack", cfg, H(x), "v", H(top.ExtName[:]))
+				} else {
+					emit("P", "p_repack", cfg, H(x), "f", H(all[re.Intn(len(all))].GUID[:]))
 				}
 			}
 		}
 	}
 	setCfg("x")
+}
+
+func repackImage(r *Rng) ([]byte, [16]byte, bool) {
+	setCfg("x")
+	raw := func(t byte, n int) *uefigen.Sec { return &uefigen.Sec{Type: t, Body: r.Bytes(n)} }
+	good, e1 := uefigen.CompressedSec(1, []*uefigen.Sec{raw(0x19, 33), raw(0x10, 70), raw(0x19, 5)}, realEnc, nil, 1)
+	opaque, e2 := uefigen.CompressedSec(2, []*uefigen.Sec{raw(0x10, 40)}, realEnc, nil, 0)
+	trunc, e3 := uefigen.CompressedSec(1, []*uefigen.Sec{raw(0x19, 60)}, realEnc, nil, 3)
+	if e1 != nil || e2 != nil || e3 != nil || len(trunc.Body) < 8 {
+		return nil, [16]byte{}, false
+	}
+	trunc.Body = trunc.Body[:len(trunc.Body)-3]
+	file := func(id byte, typ byte, secs ...*uefigen.Sec) *uefigen.File {
+		f := &uefigen.File{Type: typ, State: 0xF8, Attr: 0x40, Secs: secs}
+		copy(f.GUID[:], r.Bytes(16))
+		f.GUID[8], f.GUID[9] = 0xC8, id
+		return f
+	}
+	f1 := file(1, 0x07, opaque, raw(0x19, 9))
+	f2 := file(2, 0x07, good, &uefigen.Sec{Type: 0x15, Body: []byte{'D', 0, 'x', 0, 'e', 0, 0, 0}})
+	f3 := file(3, 0x09, raw(0x19, 4), trunc)
+	v := &uefigen.Vol{FSGUID: uefigen.FFS2, Attrs: 0x4FEFF, Revision: 2, BlockSize: 64, FreeSpace: 1024,
+		Files: []*uefigen.File{f1, f2, f3}}
+	x, _ := uefigen.EmitRegion(&uefigen.Region{Elems: []uefigen.Elem{{Vol: v}}})
+	return x, f2.GUID, true
 }
 
 func main() {
@@ -682,6 +819,8 @@ func main() {
 	Register("p_deep", pDeep)
 	Register("p_fixed", pFixed)
 	Register("p_edit", pEdit)
+	Register("p_edits", pEdits)
+	Register("p_repack", pRepack)
 	Register("p_big", pBig)
 	Main(gen)
 }
